@@ -5,5 +5,7 @@ PATCH="$(realpath "$1")"; PID="$2"; TIER="${3:-quick}"
 WT="/tmp/vf-mt-$$"
 git -C /repo worktree add -q --detach "$WT" HEAD || exit 3
 trap 'git -C /repo worktree remove --force "$WT" >/dev/null 2>&1' EXIT
-git -C "$WT" apply "$PATCH" || { echo "PATCH DOES NOT APPLY"; exit 3; }
+BASE=0ed460a   # commit the seeded / benign patches were written against
+git -C "$WT" apply "$PATCH" 2>/dev/null || git -C "$WT" apply --3way "$PATCH" >/dev/null 2>&1 || {
+  git -C "$WT" reset -q --hard && git -C "$WT" checkout -q --detach "$BASE" && git -C "$WT" apply "$PATCH" && echo "NOTE: patch applied on its base commit $BASE (conflicts with later fix commits on HEAD)"; } || { echo "PATCH DOES NOT APPLY"; exit 3; }
 cd "$(dirname "$0")/.." && VERIF_REPO="$WT" ./check "$PID" --tier "$TIER" 2>&1 | grep -E "VIOLATION|INCONCLUSIVE|held on|violation key|KNOWN" | head -12
